@@ -1,20 +1,15 @@
 (* HeapOps.v — the history theorems at the level of fsic OPERATIONS (property C11).
-   HeapHistory.v quantifies over arbitrary lists of primitive actions; here every public operation of the modelled
+   HeapHistory.v quantifies over arbitrary lists of primitive actions; here EVERY public operation of the modelled
    language ([op]: item / series / scalar assignment, add_variable, attribute sets, strict, list and dict mutations,
-   solve passes, status writes, trace_t, linker submodel writes) is shown to compile — against ANY heap — to actions that
-   bring no class-owned or caller-owned object into the receiver, with ONE exception: trace_t(trace=True) on a class whose
-   TRACE_VARIABLES is a list (the kept finding).  Hence independence for all histories of operations, copies and
-   instantiations, the operations being compiled against the heap their predecessors left. *)
+   solve passes, status writes, trace_t, linker submodel writes, aliasing one of the object's own lists under a second
+   attribute) is shown to compile — against ANY heap — to actions that bring no class-owned or caller-owned object into
+   the receiver.  (Until fix cfb58ac trace_t(trace=True) with a class-level TRACE_VARIABLES list was the exception: the
+   Trace kept the class's list.)  Hence independence for all histories of operations, copies and instantiations, the
+   operations being compiled against the heap their predecessors left. *)
 From Coq Require Import ZArith List Bool Lia.
 Import ListNotations.
 Require Import PyBase Heap HeapFacts HeapFrame HeapCopy HeapHistory.
 Open Scope Z_scope.
-
-Definition op_ok (o : op) : bool :=
-  match o with
-  | OTraceT _ _ TMClass _ => false
-  | _ => true
-  end.
 
 Definition tight (acts : list action) : bool := forallb (fun a => negb (act_leaky a)) acts.
 
@@ -36,10 +31,10 @@ Proof.
   intros H. unfold tight. induction l as [|x r IH]; simpl; auto. rewrite H. simpl. exact IH.
 Qed.
 
-(* every operation but trace_t(trace=True) with a class-level TRACE_VARIABLES list is tight, whatever the heap *)
-Theorem compile_op_tight K h r o : op_ok o = true -> tight (compile_op K h r o) = true.
+(* every operation is tight, whatever the heap *)
+Theorem compile_op_tight K h r o : tight (compile_op K h r o) = true.
 Proof.
-  intros OK. destruct o; cbn [compile_op].
+  destruct o; cbn [compile_op].
   - reflexivity.
   - destruct (zmem _ _); [destruct (Nat.eqb _ _)|]; reflexivity.
   - destruct (zmem _ _); reflexivity.
@@ -53,25 +48,22 @@ Proof.
   - reflexivity.
   - apply tight_map_scalar. intros w. reflexivity.
   - reflexivity.
-  - (* trace_t *)
+  - (* trace_t: the Trace gets a fresh list of names in every mode *)
     rewrite tight_app. apply andb_true_iff. split; [|reflexivity].
     destruct (is_empty_trace h r t || reset); [|reflexivity].
-    apply tight_trace_cell. destruct m; [reflexivity | discriminate OK | reflexivity].
+    apply tight_trace_cell. reflexivity.
   - reflexivity.
   - reflexivity.
   - reflexivity.
   - reflexivity.
+  - (* aliasing an own object under a second attribute: SAlias brings in nothing from outside the receiver *)
+    destruct (zmem _ _); [reflexivity|]. destruct (zmem _ _); [reflexivity|]. destruct (_ =? _); reflexivity.
 Qed.
-
-(* ... and that exception really is leaky (on a heap where the Trace of the period is still empty) *)
-Lemma compile_trace_class_leaky K h r t label :
-  is_empty_trace h r t = true -> tight (compile_op K h r (OTraceT t label TMClass false)) = false.
-Proof. intros E. cbn [compile_op]. rewrite E. reflexivity. Qed.
 
 (* ------------------------------------------------------------------ histories of operations *)
 Definition hevent_ok (e : hevent) : bool :=
   match e with
-  | HOps _ os => forallb op_ok os
+  | HOps _ _ => true
   | HEv e => event_ok e
   end.
 
@@ -82,19 +74,19 @@ Definition hreceiver (e : hevent) : option nat :=
   end.
 
 Lemma fop_independent K s i o :
-  roots_ok s -> op_ok o = true ->
+  roots_ok s ->
   roots_ok (run_fevent K s (FOp i o)) /\
   sroots (run_fevent K s (FOp i o)) = sroots s /\
   (forall j rj, nth_error (sroots s) j = Some rj -> j <> i ->
                 same_subheap (sh s) (sh (run_fevent K s (FOp i o))) rj).
 Proof.
-  intros RO OK. unfold run_fevent. cbn [lower].
+  intros RO. unfold run_fevent. cbn [lower].
   set (e := match nth_error (sroots s) i with
             | Some r => EActs i (compile_op K (sh s) r o)
             | None => EActs i [] end).
   assert (Ee : event_ok e = true /\ receiver e = Some i /\ forall s', sroots (run_event K s' e) = sroots s').
   { unfold e. destruct (nth_error (sroots s) i) as [r|].
-    - split; [apply (compile_op_tight K (sh s) r o OK)|]. split; [reflexivity|].
+    - split; [apply (compile_op_tight K (sh s) r o)|]. split; [reflexivity|].
       intros s'. cbn [run_event]. destruct (nth_error (sroots s') i); reflexivity.
     - split; [reflexivity|]. split; [reflexivity|].
       intros s'. cbn [run_event]. destruct (nth_error (sroots s') i); reflexivity. }
@@ -105,17 +97,16 @@ Proof.
 Qed.
 
 Lemma hops_independent K i : forall os s,
-  roots_ok s -> forallb op_ok os = true ->
+  roots_ok s ->
   roots_ok (run_hevent K s (HOps i os)) /\
   sroots (run_hevent K s (HOps i os)) = sroots s /\
   (forall j rj, nth_error (sroots s) j = Some rj -> j <> i ->
                 same_subheap (sh s) (sh (run_hevent K s (HOps i os))) rj).
 Proof.
-  induction os as [|o os IH]; intros s RO OK.
+  induction os as [|o os IH]; intros s RO.
   - cbn [run_hevent fold_left]. split; [exact RO|]. split; [reflexivity|]. intros; apply same_subheap_refl.
-  - cbn [forallb] in OK. apply andb_true_iff in OK as [Oo Oos].
-    destruct (fop_independent K s i o RO Oo) as (RO1 & R1 & U1).
-    specialize (IH (run_fevent K s (FOp i o)) RO1 Oos). destruct IH as (RO2 & R2 & U2).
+  - destruct (fop_independent K s i o RO) as (RO1 & R1 & U1).
+    specialize (IH (run_fevent K s (FOp i o)) RO1). destruct IH as (RO2 & R2 & U2).
     change (run_hevent K s (HOps i (o :: os))) with (run_hevent K (run_fevent K s (FOp i o)) (HOps i os)).
     split; [exact RO2|]. split; [rewrite R2; exact R1|].
     intros j rj Hj Nj. eapply same_subheap_trans; [apply (U1 j rj Hj Nj)|].
@@ -130,7 +121,7 @@ Theorem hevent_independent K s e :
                 same_subheap (sh s) (sh (run_hevent K s e)) rj).
 Proof.
   intros RO OK. destruct e as [i os|e].
-  - destruct (hops_independent K i os s RO OK) as (RO1 & R1 & U1).
+  - destruct (hops_independent K i os s RO) as (RO1 & R1 & U1).
     split; [exact RO1|]. split; [exists []; rewrite app_nil_r; exact R1|].
     intros j rj Hj Nj. apply (U1 j rj Hj). intros ->. apply Nj. reflexivity.
   - exact (event_independent K s e RO OK).
@@ -237,4 +228,16 @@ Proof.
   destruct (hhistory_independent K es s2 RO2 OK) as (RO3 & _ & U).
   split; [exact RO2|]. split; [exact RO3|].
   intros j rj n Hj NR. apply view_of_same_subheap. apply (U j rj Hj NR).
+Qed.
+
+(* no operation whatsoever applied to one root — trace_t(trace=True) with a class-level TRACE_VARIABLES list and any later
+   edit of the Trace's names included — is visible on another root (the class, a sibling, a copy), at any depth.
+   (Positive form of the finding repaired by fix cfb58ac.) *)
+Theorem ops_leave_other_roots K s i ops j rj n :
+  roots_ok s -> nth_error (sroots s) j = Some rj -> j <> i ->
+  view n (sh (run_hevents K s [HOps i ops])) (VR rj) = view n (sh s) (VR rj).
+Proof.
+  intros RO Hj Nj. apply view_of_same_subheap.
+  destruct (hhistory_independent K [HOps i ops] s RO eq_refl) as (_ & _ & U).
+  apply (U j rj Hj). intros e [<-|[]]. cbn [hreceiver]. intros E. inversion E. congruence.
 Qed.
